@@ -341,11 +341,15 @@ impl<F: Float> GaussianMixtureModel<F> {
         observations: &ArrayBase<D, Ix2>,
     ) -> (Array1<F>, Array2<F>) {
         let weighted_log_prob = self.estimate_weighted_log_prob(observations);
-        let log_prob_norm = weighted_log_prob
-            .mapv(|x| x.exp())
-            .sum_axis(Axis(1))
-            .mapv(|x| x.ln());
-        let log_resp = weighted_log_prob - log_prob_norm.to_owned().insert_axis(Axis(1));
+        // Log-sum-exp with the row maximum factored out: far away from every component
+        // all `exp(weighted_log_prob)` underflow and `ln(0)` would yield infinite
+        // responsibilities
+        let max_log_prob =
+            weighted_log_prob.fold_axis(Axis(1), F::neg_infinity(), |acc, x| acc.max(*x));
+        let shifted = weighted_log_prob - max_log_prob.to_owned().insert_axis(Axis(1));
+        let log_sum = shifted.mapv(|x| x.exp()).sum_axis(Axis(1)).mapv(|x| x.ln());
+        let log_resp = shifted - log_sum.to_owned().insert_axis(Axis(1));
+        let log_prob_norm = log_sum + max_log_prob;
         (log_prob_norm, log_resp)
     }
 
